@@ -62,9 +62,12 @@ def summarize(respath, harness, wall):
             for v in r.get('violations') or []:
                 key = (v['kind'], v['msg'])
                 if key not in viol:
-                    viol[key] = dict(v, count=1)
+                    viol[key] = dict(v, count=1, alt_inputs=[])
                 else:
                     viol[key]['count'] += 1
+                    # further input vectors with the same message: tried natively when the first one does not reproduce
+                    if 'inputs' in v and len(viol[key]['alt_inputs']) < 12 and v['inputs'] != viol[key].get('inputs') and v['inputs'] not in viol[key]['alt_inputs']:
+                        viol[key]['alt_inputs'].append(v['inputs'])
             if r['status'] == 'ok' and 'inputs' in r and not r.get('violations') and len(samples) < 4000:
                 samples.append({'inputs': r['inputs'], 'obs': r.get('obs', [])})
     # NOTE: steps/queries are per-process counters that include the prefix inherited at fork time; we report
